@@ -1,40 +1,62 @@
 (* pom.xml writer (guidedremediation/internal/manifest/maven/pomxml.go: Write, buildPatches, write,
-   writeProject, writeDependency, writeString).
+   writeProject, writeDependency, writeString): the correspondence record of the harness's pom mode.
 
-   What is modelled here is the part of Write that is decided by generatePropertyPatches:
-   buildPatches calls generatePropertyPatches(origVersion, VersionTo) once for every update whose
-   original (un-interpolated) version contains a property, in update order, before anything is written;
-   a panic there is a panic of Write, and Write has no other panic-capable operation on the inputs of
-   the quantifier. The token-level rewrite itself (forked encoding/xml decoder/encoder) is NOT modelled:
-   it is decided by the harness's round-trip oracle (token sequence via encoding/xml, re-read
-   requirements) -- the evidence says so.  Definitions only (no proofs). *)
+   Modelled in Coq (PomDecl.v): which version declaration / property definition of which pom of the chain
+   gets which new text -- buildPatches (OriginalDependency, parentPathFromOrigin, property-vs-literal via
+   generatePropertyPatches, property origin, preset conflicts) and the effect of the patches; and
+   "Write panics iff a generatePropertyPatches call panics" (never, since the fix).
+   NOT modelled, decided by the harness's token-level oracle only: that the bytes around those texts
+   survive as the same XML token sequence (elements, attributes, text, comments, processing instructions),
+   incl. the re-encoding of every token by the forked encoder, comments inside <version>, CDATA, and the
+   inserted dependencyManagement block.  Definitions only (no proofs). *)
 From Coq Require Import List ZArith NArith Bool.
-From Scalibr Require Import Writers.GoBytes Writers.PomProps.
+From Scalibr Require Import Writers.GoBytes Writers.PomProps Writers.PomDecl.
 Import ListNotations.
 
 Record mcase := {
   mc_prop_pairs : list (bytes * bytes);  (* (s1, s2) of the generatePropertyPatches calls Write has to make *)
+  mc_chain : chain;                      (* declaration-level reading of the input poms *)
+  mc_updates : list pupd;
+  mc_dobs : dobs;                        (* ... of the written poms (declarations present before only) *)
+  mc_chain_ok : bool;                    (* harness: Write wrote every pom of the chain *)
+  mc_tok_claimed : bool;                 (* harness, token-level part of the domain: no comment inside a <version>,
+                                            no update that adds a dependencyManagement entry, changed properties
+                                            used in dependency versions only *)
   mc_zero_updates : bool;
-  mc_claimed : bool;     (* harness: structural domain (updates addressed to present requirements, one per key,
-                            changed properties referenced once, version texts spelled plainly) *)
-  mc_panic : bool;       (* observed: Write panicked *)
-  mc_error : bool;       (* observed: Write returned an error *)
-  mc_good : bool }.      (* observed: success AND token sequence preserved (only addressed texts differ)
-                            AND re-read requirements = original requirements with the versions substituted *)
+  mc_claimed : bool;                     (* harness: its own structural domain (kept as a cross-check of d_full) *)
+  mc_panic : bool;
+  mc_error : bool;
+  mc_good : bool }.                      (* observed: success AND token sequence preserved AND re-read requirements
+                                            substituted AND the Go effective-version reference agrees *)
 
 Definition pair_panics (p : bytes * bytes) : bool := is_panic (generate_property_patches (fst p) (snd p)).
-
-(* model of "Write panics": some generatePropertyPatches call panics *)
 Definition write_panics (pairs : list (bytes * bytes)) : bool := existsb pair_panics pairs.
 
-Definition mcase_model_ok (c : mcase) : bool := Bool.eqb (write_panics (mc_prop_pairs c)) (mc_panic c).
+(* model = implementation: no panic; on inputs where the Go code is deterministic (chain_frag) the written
+   declarations and properties are the model's *)
+Definition mcase_model_ok (c : mcase) : bool :=
+  Bool.eqb (write_panics (mc_prop_pairs c)) (mc_panic c) &&
+  (negb (mc_chain_ok c && chain_frag (mc_chain c) (mc_updates c)) ||
+   match write_chain (mc_chain c) (mc_updates c), mc_dobs c with
+   | Some c', DObsOk o => chain_eqb c' o
+   | None, DObsErr => true
+   | _, _ => mc_panic c
+   end).
 
-(* domain of the oracle: the structural part computed by the harness (generatePropertyPatches is total
-   and sound on every input since the fix, so no further restriction comes from it) *)
-Definition mcase_in_domain (c : mcase) : bool := mc_claimed c.
+(* the domain of the oracle: the token-level part (harness) and D_full (Coq) *)
+Definition mcase_in_domain (c : mcase) : bool :=
+  mc_tok_claimed c && d_full (mc_chain c) (mc_updates c).
 
-(* zero updates: claimed for every file (no domain) *)
-Definition mcase_spec_ok (c : mcase) : bool :=
-  negb (mcase_in_domain c) || mc_good c.
+(* the declaration-level spec on the implementation's own output *)
+Definition mcase_decl_spec (c : mcase) : bool :=
+  match mc_dobs c with
+  | DObsOk o => decl_spec_ok (mc_chain c) (mc_updates c) o
+  | _ => false
+  end.
 
-Definition mcase_spec_full (c : mcase) : bool := mc_good c.
+Definition mcase_spec_full (c : mcase) : bool := mc_good c && mcase_decl_spec c.
+
+Definition mcase_spec_ok (c : mcase) : bool := negb (mcase_in_domain c) || mcase_spec_full c.
+
+(* cross-check of the two domain computations: everything D_full claims, the harness claims too *)
+Definition mcase_domains_agree (c : mcase) : bool := negb (mcase_in_domain c) || mc_claimed c.
